@@ -26,6 +26,11 @@ enum Regime {
 	Ramp,
 	Jump,
 	Negative,
+	/// exactly summable history: 0 / AMP alternating (every running sum of a window stays exact; anything
+	/// that accumulates over the WHOLE stream passes 1/eps within a few thousand steps)
+	Swing,
+	/// 1, 0, 1, 0, ... (after a Swing: unit changes next to a huge travelled path)
+	Calm,
 }
 #[derive(Clone, Debug)]
 enum Act {
@@ -71,6 +76,20 @@ impl Gen {
 				self.scale * (1.0 + w)
 			}
 			Regime::Negative => -self.scale * (1.0 + w),
+			Regime::Swing => {
+				if self.last == 0.0 {
+					if IS_F32 { 32768.0 } else { 17592186044416.0 }
+				} else {
+					0.0
+				}
+			}
+			Regime::Calm => {
+				if self.last == 1.0 {
+					0.0
+				} else {
+					1.0
+				}
+			}
 		};
 		self.last = v;
 		v
@@ -326,7 +345,7 @@ impl System for ILongSys {
 		let mut v = vec![];
 		if s.micros == 0 && s.macros < self.max_macros {
 			for (r, l) in &self.menu {
-				if *r != Regime::Negative && s.g.t + l <= self.total_cap {
+				if !matches!(r, Regime::Negative | Regime::Swing | Regime::Calm) && s.g.t + l <= self.total_cap {
 					v.push((Act::Macro(*r, *l), 0));
 				}
 			}
@@ -467,6 +486,8 @@ fn main() {
 	menu.push((Regime::Ramp, 300));
 	menu.push((Regime::Jump, if thorough { 65_536 } else { 4096 }));
 	menu.push((Regime::Negative, 300));
+	menu.push((Regime::Swing, 4096));
+	menu.push((Regime::Calm, 64));
 	if thorough {
 		menu.push((Regime::Volatile, 10_000_000));
 		menu.push((Regime::Jump, 1_000_000));
